@@ -29,7 +29,8 @@ LEVEL_TEXT = ("Every crash point of the cache update (before/after mkdir, after 
 LEVEL_NOTE = ("Crash model: the scan runs in a forked child; every file-system mutation below the tree (open for writing, mkdir, replace/rename, unlink) is an "
               "operation; at the planned operation only the first k bytes reach the disk (or the call happens / does not happen) and the process dies with "
               "os._exit - no exception handler, finally block or atexit hook runs. No reordering between operations (one sequential process). 'Wrong value type' = a different JSON kind. Deleting array elements or editing "
-              "same-kind values under a valid checksum is outside the property (undetectable by the stated reuse rule).")
+              "same-kind values under a valid checksum is outside the property (undetectable by the stated reuse rule)."
+              " Every other recovery scan goes through `scan --verbose` via the command-line entry; faults include inserted repository sections.")
 
 TAG = "Signature: 8a477f597d28d172789f06886806bc55"
 GITIGNORE = "# Created by codelimit automatically.\n*\n"
